@@ -1,13 +1,13 @@
 import json, os, re
 
 SPEC = {
-    "lean_modules": ["SemaModel.C17.Props"],
+    "lean_modules": ["SemaModel.C17.Props", "SemaModel.C17.Tie"],
     "lean_dirs": ["SemaModel/C17"],
     "harness": "c17",
     "harness_args": {"quick": ["-n", 400, "-big", 15, "-curate", 3000, "-fault", 24], "thorough": ["-n", 3000, "-big", 100, "-curate", 50000, "-fault", 160]},
     "timeout": {"quick": 900, "thorough": 3000},
     "level": "proof",
-    "tie": "T3: go/cmd/c17 builds fresh clusters of 1..3 real in-process servers (NewNode + Serve on loopback) with small per-shard point limits (1..8 shards per collection), drives insert / update / delete / search through every live entry node, stops one server in many scenarios, and runs the Lean model on the same op lines; what is an oracle for the model (placement of inserted points, each shard's answer to a query) is read from the shards directly; the property oracles are evaluated on the real responses; the real curateFailedPoints is also called directly through cluster/verif_export.go; fault scenarios (go/cmd/c17/fault.go, faultnet.go): real nodes whose RPC service runs on a transport the harness controls (requests swallowed past the time-out, connections killed mid-call / during the back-off / while idle so that the caller's cached client is shut down, dials refused), RpcRetries 1..3, update / delete / search and single calls of the real internalRoute under those scripts, with 'which shard's handler completed' measured by a recorder in front of the handlers and the Lean model of the retry loop run on the scripted event list. T2: the control skeleton of internalRoute's retry loop (Generated/FactsC17.routeSkeleton); Generated/FactsC17.lean pins the constants (as float32 bit patterns, used by the driver) and the expression text of the per-shard limit, the offset rule, the cut and the score comparison of ClusterNode.SearchPoints",
+    "tie": "T1: cluster/actions.go curateFailedPoints is translated to SemaModel/Generated/Curate.lean on every run (slices.SortFunc abstract, slices.BinarySearchFunc = Go.binarySearchFunc of Base/GoRt.lean); C17_tie proves that the model's curateWith / binarySearch compute the same for all inputs (uuids read as big-endian numbers). T3: go/cmd/c17 builds fresh clusters of 1..3 real in-process servers (NewNode + Serve on loopback) with small per-shard point limits (1..8 shards per collection), drives insert / update / delete / search through every live entry node, stops one server in many scenarios, and runs the Lean model on the same op lines; what is an oracle for the model (placement of inserted points, each shard's answer to a query) is read from the shards directly; the property oracles are evaluated on the real responses; the real curateFailedPoints is also called directly through cluster/verif_export.go; fault scenarios (go/cmd/c17/fault.go, faultnet.go): real nodes whose RPC service runs on a transport the harness controls (requests swallowed past the time-out, connections killed mid-call / during the back-off / while idle so that the caller's cached client is shut down, dials refused), RpcRetries 1..3, update / delete / search and single calls of the real internalRoute under those scripts, with 'which shard's handler completed' measured by a recorder in front of the handlers and the Lean model of the retry loop run on the scripted event list. T2: the control skeleton of internalRoute's retry loop (Generated/FactsC17.routeSkeleton); Generated/FactsC17.lean pins the constants (as float32 bit patterns, used by the driver) and the expression text of the per-shard limit, the offset rule, the cut and the score comparison of ClusterNode.SearchPoints",
     "required_theorems": [
         "Sema.C17.C17_curate", "Sema.C17.C17_binarySearch", "Sema.C17.C17_curate_mergeSort", "Sema.C17.C17_curate_precondition",
         "Sema.C17.C17_failed_update", "Sema.C17.C17_failed_delete", "Sema.C17.C17_failed_message",
@@ -17,6 +17,7 @@ SPEC = {
         "Sema.C17.C17_sort_score", "Sema.C17.C17_sort_keys",
         "Sema.C17.C17_route_nil", "Sema.C17.C17_routed_up", "Sema.C17.C17_route_unreachable", "Sema.C17.C17_route_zero_retries",
         "Sema.C17.C17_failed_message_routed", "Sema.C17.C17_failed_message_delete", "Sema.C17.C17_failed_message_routed_delete", "Sema.C17.C17_search_routed",
+        "Sema.C17.C17_tie", "Sema.C17.C17_tie_sorted",
     ],
     "trusted_base": [
         "the hand-written model SemaModel/C17/Model.lean (transcription of cluster/actions.go UpdatePoints, DeletePoints, curateFailedPoints incl. the loop of slices.BinarySearchFunc, SearchPoints); mitigated by the line-by-line correspondence on real clusters",
